@@ -1,6 +1,7 @@
 // eng_api_more.cpp -- api engine, continued: walk read-back, write/re-parse checkpoints (C02, C13), planted failing
 // calls (C05), per-property configurations and the engine entry point.
 #include "apieng.hpp"
+#include "docgen.hpp"
 #include <sqlite3.h>
 extern "C" {
 #include "internal/ciftypes.h"
@@ -233,7 +234,44 @@ void ApiRun::op_checkpoint(const Op &o) {
     prune_all(ci);
     verify_roundtrip(ci, cfg.write_version, o);
 }
-void ApiRun::op_parse_into(const Op &o) { (void) o; }
+// Parsing a small well-formed document into an existing managed CIF, in the middle of a history (C04 "interleaved with
+// parsing into them").  The document's block codes are kept distinct from the blocks already present, so that the expected
+// outcome is simply "the CIF gains these blocks"; everything else about the target (handles, other blocks, other CIFs) must
+// be untouched.
+static void renumber(MCont &c, ApiRun *r) { c.uid = r->new_uid(); for (auto &l : c.loops) { l.uid = r->new_uid(); for (auto &p : l.packets) p.uid = r->new_uid(); } for (auto &f : c.frames) renumber(f, r); }
+void ApiRun::op_parse_into(const Op &o) {
+    int ci = pick_cif(o.a); if (ci < 0) SKIP("no CIF");
+    RCif &c = cifs[(size_t) ci];
+    if (c.iter >= 0) SKIP("iterator open");
+    if (o.fault_kind) SKIP("parse_into is not combined with storage faults");
+    Rng r(o.seed);
+    DocCfg dc; dc.version = 2; dc.max_blocks = (int) r.range(1, 2); dc.max_items = (int) r.range(1, 4); dc.max_loop_names = 3; dc.max_packets = 3; dc.frames = r.chance(1, 2);
+    dc.vals.max_depth = o.simple ? 0 : (int) r.range(0, 2); dc.vals.max_members = 3; dc.vals.allow_long = false;
+    Doc d = gen_doc(r, dc);
+    // drop blocks whose code is already present in the target (or twice in the document)
+    std::set<ustr> seen; std::vector<DBlock> keep;
+    for (auto &b : d.blocks) { ustr n = mnorm(b.code); if (c.model.block(n) || !seen.insert(n).second) continue; keep.push_back(b); }
+    d.blocks = keep; if (d.blocks.empty()) SKIP("all generated block codes are taken");
+    Rng lr(r.next()); Layout lay = layout_doc(d, lr, dc);
+    SimIn in; in.data = lay.utf8(); in.chunk = r.chance(1, 2) ? (size_t) r.range(1, 200) : 0;
+    struct cif_parse_opts_s *po = NULL;
+    int rcp = CALLN("cif_parse_options_create", (po = NULL, cif_parse_options_create(&po)));
+    expect_rc("cif_parse_options_create", rcp, {CIF_OK});
+    ErrRec er; po->error_callback = rec_error; po->user_data = &er; po->max_frame_depth = -1;
+    cif_tp *target = c.cif;
+    FILE *f = in.open();
+    // (not enumerated under allocation failures: a parse that fails half way legitimately leaves what it had stored so far)
+    int rc = CALLN("cif_parse", cif_parse(f, po, &target));
+    fclose(f); lib_free(po);
+    cover(o.k, rc, (uint64_t) d.blocks.size());
+    ev("cif_parse into cif%d: %zu block(s), %zu bytes -> %s, %zu error(s)", ci, d.blocks.size(), in.data.size(), rc_name(rc), er.codes.size());
+    if (target != c.cif) violate("result", "cif_parse:target_changed", "cif_parse replaced the caller's CIF pointer although a CIF was supplied");
+    if (rc != CIF_OK || !er.codes.empty()) violate("rc", strprintf("cif_parse_into:%s:%s", rc_name(rc), er.codes.empty() ? "-" : rc_name(er.codes[0])), strprintf("parsing a well-formed document with fresh block codes into an existing CIF gives %s with %zu error(s), first %s", rc_name(rc), er.codes.size(), er.codes.empty() ? "-" : rc_name(er.codes[0])));
+    MCif add = expected_model(d);
+    for (auto &b : add.blocks) { renumber(b, this); c.model.blocks.push_back(b); }
+    g_stats.inc("api.parse_into");
+    after_mutation(ci, false);
+}
 
 // ------------------------------------------------------------------------------------------------ planted failing calls (C05)
 void ApiRun::op_plant_fail(const Op &o) {
@@ -354,6 +392,13 @@ void ApiRun::op_plant_fail(const Op &o) {
         if (last_rc == CIF_OK && !(bad.k == O_IterUpdate)) violate("failed", strprintf("plant%d:%s", o.pf_kind, opk_name(bad.k)), strprintf("a call constructed to fail (planted failure kind %d) returned CIF_OK", o.pf_kind));
         if (c.cif) {
             int ac = sqlite3_get_autocommit(c.cif->db);
+            if (c.iter >= 0 && ac != 0 && fault_fired()) {
+                // a storage-engine I/O error (not one of C05's failure causes) makes SQLite roll back the whole enclosing
+                // transaction by itself; the iterator is dead, the content must be that of the snapshot taken when it was opened
+                ev("the storage fault made the engine roll back the iterator transaction"); g_stats.inc("plant.engine_rollback");
+                Op e; e.k = O_IterAbort; int ord = 0, cnt = 0; for (size_t i = 0; i < cifs.size(); ++i) if (cifs[i].cif && cifs[i].iter >= 0) { if ((int) i == ci) ord = cnt; ++cnt; } e.a = (uint32_t) ord;
+                disarm_faults(); op_iter_end(e, true, true); cur_kind = saved_kind; return;
+            }
             if (c.iter >= 0 && ac != 0) violate("autocommit", strprintf("plant%d:tx_lost", o.pf_kind), "the failing call ended the enclosing iterator transaction");
             if (c.iter < 0 && ac == 0) violate("autocommit", strprintf("plant%d:tx_left_open", o.pf_kind), "the failing call left a transaction open");
         }
@@ -372,7 +417,7 @@ static void base_weights(ApiCfg &c) {
     w[O_CifCreate] = 2; w[O_CifDestroy] = 1; w[O_BlockCreate] = 6; w[O_BlockGet] = 3; w[O_BlocksAll] = 1; w[O_FrameCreate] = 4; w[O_FrameGet] = 2; w[O_FramesAll] = 1;
     w[O_ContDestroy] = 2; w[O_ContCode] = 1; w[O_LoopCreate] = 8; w[O_LoopByCat] = 2; w[O_LoopByItem] = 3; w[O_LoopsAll] = 2; w[O_Prune] = 2; w[O_GetValue] = 6; w[O_SetValue] = 12;
     w[O_RemoveItem] = 4; w[O_LoopDestroy] = 2; w[O_LoopCat] = 1; w[O_LoopNames] = 2; w[O_LoopSetCat] = 3; w[O_LoopAddItem] = 5; w[O_LoopAddPacket] = 12; w[O_IterOpen] = 3; w[O_IterNext] = 6;
-    w[O_IterUpdate] = 3; w[O_IterRemove] = 2; w[O_IterClose] = 2; w[O_IterAbort] = 1; w[O_HandleFree] = 2; w[O_Dump] = 2; w[O_Walk] = 1;
+    w[O_IterUpdate] = 3; w[O_IterRemove] = 2; w[O_IterClose] = 2; w[O_IterAbort] = 1; w[O_HandleFree] = 2; w[O_Dump] = 2; w[O_Walk] = 1; w[O_ParseInto] = 2;
 }
 ApiCfg api_config_for(const std::string &prop, const RunSpec &spec) {
     ApiCfg c; c.prop = prop; c.quick = spec.tier != "thorough";
